@@ -274,8 +274,15 @@ CLAIMS.update({
                 'of a stream that is never given a partially reliable policy belong to no abandoned message, whatever happens to other messages), C07_abandoned_not_retransmitted (T3 and '
                 'RACK/PTO marks never flag, the fast-retransmit gather and the T3 retransmission gather never send an abandoned chunk) with C07_d21_regression (finding D21, found by this '
                 'theorem: getDataPacketsToRetransmit did not test abandoned(); fixed in /repo, the model mirrors the fix, the witness is replayed from corpus/C06 and corpus/C07). '
-                'NOT covered by theorems: the RECEIVER half (handleForwardTSN / forwardTSNFor*: nothing that was not abandoned is purged, later messages are delivered, partially received and '
-                'first-on-stream cases) and the composition of both halves. '
+                'RECEIVER SIDE (proof, L0 receive-half model Receiver, all states, all chunk contents): C07_forward_needs_stream / C07_iforward_needs_stream (a FORWARD-TSN / I-FORWARD-TSN that is '
+                'not stale is taken completely or not at all: either every stream it names exists afterwards - created on the spot when needed - the cumulative point is the announced one, and, when '
+                'no stream is named twice, the cursor of every named stream lies past the skipped SSN / MID; or a named stream could not be created, and then nothing changes except that the streams '
+                'created before the failing one are registered and queued for Accept: receive queue, cumulative point, ack state, timer, window, control output and all existing streams are untouched), '
+                'C07_forward_dropped_only_when_backlog_full (the second case needs a full accept backlog); this is the fix of finding D23 (witness corpus/C07/ar_d23_forward_backlog_full.ops), mirrored '
+                'in the model and compared with the real handleForwardTSN / handleIForwardTSN by the direct-drive receiver harness (`ar`), whose generator fills the backlog on purpose; predicate [C07] '
+                'on the implementation outputs: after a taken FORWARD-TSN every named stream is registered, a dropped one left cum / queue / window / ack state as they were and is only dropped with a '
+                'full backlog. '
+                'NOT covered by theorems: that nothing which was not abandoned is purged inside the reassembly queues (forwardTSNFor*), and the composition of both halves. '
                 'SYSTEM LEVEL (exploration, synctest e2e): ' + CLAIMS['C07']['text'],
         'note': SENDER_NOTE + ' The FORWARD-TSN comparison is on the decoded chunk (new cumulative TSN, stream list sorted by stream id). ' + E2E_NOTE,
         'technique': 'Lean 4 proof (invariant AdvInv over op lists, serial arithmetic by bv_omega, fold lemmas for the stream lists) + model/implementation differential replay of a direct-driven '
